@@ -1043,6 +1043,8 @@ class Capture:
 
 PASS_THROUGH_CALLS = {"enumerate", "zip", "reversed", "list", "tuple", "iter", "sorted", "asarray", "ascontiguousarray", "atleast_1d"}
 VIEW_METHODS = {"view", "reshape", "ravel", "squeeze", "transpose"}
+BUILTIN_CALLS = set(dir(__import__("builtins")))
+EXTERNAL_PREFIXES = ("np.", "nb.", "numba.", "jnp.", "jax.", "torch.", "sympy.", "inspect.", "functools.", "warnings.", "math.", "itertools.")
 
 
 class CaptureAnalysis:
@@ -1320,7 +1322,7 @@ class CaptureAnalysis:
             targets = self.resolve_call(f, n, env, ctx)
             if not targets:
                 fname = dotted(n.func)
-                if fname.split(".")[-1] not in PASS_THROUGH_CALLS and not fname.startswith(("np.", "nb.", "numba.", "jnp.", "torch.")):
+                if fname.split(".")[-1] not in PASS_THROUGH_CALLS and fname not in BUILTIN_CALLS and not fname.startswith(EXTERNAL_PREFIXES):
                     self.unresolved.add(f"{display_ref(f)}: {fname}(...)")
                 continue
             for callee, bound, recv_t, cctx in targets:
@@ -1440,9 +1442,12 @@ def invalidations(f: FuncInfo, store: str, cache_names: set[str], cls: ClassInfo
     def const_is(n: ast.AST, values: set[str]) -> bool:
         return isinstance(n, ast.Constant) and n.value in values
 
+    def mentions_store(n: ast.AST) -> bool:
+        return any(is_store(x) or const_is(x, {store}) for x in ast.walk(n))
+
     for st in stmts:
         if isinstance(st, (ast.If, ast.For, ast.While, ast.With, ast.Try)):
-            continue  # compound statements are represented by their parts
+            continue  # compound statements are represented by their parts (guards: below)
         how = None
         if isinstance(st, ast.Assign) and any(is_store(t) for t in st.targets):
             how = f"{me}.{store} = ..."
@@ -1473,6 +1478,18 @@ def invalidations(f: FuncInfo, store: str, cache_names: set[str], cls: ClassInfo
                 how = f"delattr({me}, {store!r})"
         if how:
             out.append((st, how))
+    # guard idioms: an invalidation that is only skipped when there is nothing to drop
+    #   if hasattr(self, "<store>"): <invalidate>        (no else branch)
+    #   try: <invalidate> except AttributeError/KeyError: pass
+    #   with contextlib.suppress(...): <invalidate>
+    found = {id(s) for s, _ in out}
+    for st in stmts:
+        if isinstance(st, ast.If) and not st.orelse and mentions_store(st.test) and any(id(b) in found for b in st.body):
+            out.append((st, "guarded: " + next(h for b, h in out if any(b is x for x in st.body))))
+        elif isinstance(st, ast.Try) and any(id(b) in found for b in st.body) and not _exits([x for h in st.handlers for x in h.body]):
+            out.append((st, "try: " + next(h for b, h in out if any(b is x for x in st.body))))
+        elif isinstance(st, ast.With) and any(id(b) in found for b in st.body) and any(is_call_to(i.context_expr, "suppress") for i in st.items):
+            out.append((st, "suppress: " + next(h for b, h in out if any(b is x for x in st.body))))
     return out
 
 
